@@ -600,6 +600,11 @@ func (w *World) Build() error {
 
 // accessorMismatch: what a freshly issued token's accessors report against what was asked of Delegate.
 func accessorMismatch(d delegation.Delegation, sp *TokSpec, sg ucan.Signer, nprf int) string {
+	if len(d.Signature().Bytes()) == 0 && len(d.Capabilities()) == 0 {
+		// the root block does not decode as a UCAN (e.g. caveats that are not a map or null): such a delegation has no fields
+		// at all (core/delegation Data()); what the validator makes of it is the world's business
+		return ""
+	}
 	if e := d.Expiration(); (e == nil) != (sp.Exp == nil) || (e != nil && *e != *sp.Exp) {
 		return fmt.Sprintf("Expiration() = %s, issued with %s", coqOptZ(e), coqOptZ(sp.Exp))
 	}
@@ -1048,7 +1053,10 @@ func (w *World) coqCval(n datamodel.Node) string {
 		l, _ := n.AsLink()
 		return fmt.Sprintf("(VLink %d)", w.lid(l))
 	case datamodel.Kind_Int:
-		i, _ := n.AsInt()
+		i, err := n.AsInt()
+		if err != nil {
+			return "VOtherKind" // a uint64 above int64: AsInt fails, no reader takes it for an integer (TokenView.view_cval)
+		}
 		return fmt.Sprintf("(VInt (%d)%%Z)", i)
 	case datamodel.Kind_String:
 		s, _ := n.AsString()
@@ -1121,7 +1129,7 @@ func (w *World) coqToken(b *Built) string {
 		prf = append(prf, fmt.Sprint(w.lid(l)))
 	}
 	signer := "None"
-	if b.Signer != 0 {
+	if b.Signer != 0 && len(d.Signature().Bytes()) > 0 { // a block that does not decode as a UCAN carries no signature at all (token-view:signer)
 		signer = fmt.Sprintf("(Some %d)", b.Signer)
 	}
 	return fmt.Sprintf("(mkTok %s %s [%s] [%s] %s (%d)%%Z %d %s)",
@@ -1242,6 +1250,7 @@ func (w *World) Coq(obs *Obs) string {
 		strings.Join(resolver, "; "), strings.Join(principals, "; "), strings.Join(keyres, "; "), w.Ctx.Now)
 	fmt.Fprintf(&sb, " ob_auth := %s;\n ob_path := %s;\n ob_verifies := [%s];\n ob_checks := [%s];\n ob_derives := [%s];\n ob_err_revoked := %s |}",
 		coqBool(obs.Authorized), w.coqPath(obs.Path), strings.Join(verifs, "; "), strings.Join(checks, ";\n   "), strings.Join(derives, ";\n   "), coqBool(obs.ErrRevoked))
+	tokenViewHook(w) // tokenview.go: root block bytes + observed signature checks of every token (coq/Check_TokenView.v)
 	return sb.String()
 }
 
@@ -1257,6 +1266,9 @@ func sigCodeOf(v principal.Verifier) uint64 {
 
 // writeWorldCases writes shards of case files for a list of (world, obs).
 func writeWorldCases(dir, prefix string, cases []string, shards int, checkFn string) error {
+	if err := flushTokenViews(dir, prefix, shards); err != nil { // tokenview.go: tview_*.v next to the case files
+		return err
+	}
 	if shards < 1 {
 		shards = 1
 	}
